@@ -9,8 +9,6 @@ import (
 	"strings"
 	"testing"
 	"time"
-
-	"github.com/frankkopp/FrankyGo/internal/uci"
 )
 
 func TestMain(m *testing.M) {
@@ -18,14 +16,10 @@ func TestMain(m *testing.M) {
 		// see race_on.go: no harness locking in race builds
 		runtime.GOMAXPROCS(1)
 	}
-	MuteEngine()
-	InstallHooks()
-	if err := ValidateCorpus(); err != nil {
-		fmt.Fprintln(os.Stderr, "corpus:", err)
+	if err := InitHarness(); err != nil {
+		fmt.Fprintln(os.Stderr, "harness init:", err)
 		os.Exit(2)
 	}
-	ResetEngineGlobals(nil)
-	EngineOptions = ParseUciOptions(uci.NewUciHandler().Command("uci"))
 	os.Exit(m.Run())
 }
 
